@@ -171,6 +171,20 @@ func (e *c19Env) seed() {
 	for i, id := range []string{"a", "b"} {
 		c19Must(en.VAdd(c19Idx1, id, []float32{0.1 + float32(i), 0.5, 0.9}, map[string]any{"content": "gamma delta " + id}))
 	}
+	// indexes in the states a client can leave them in: never written to; everything deleted
+	// again; another storage precision
+	c19Must(en.VCreate(c19IdxEmpty, distance.Euclidean, 8, 50, distance.Float32, "", nil, nil, nil))
+	c19Must(en.VCreate(c19IdxDeleted, distance.Euclidean, 8, 50, distance.Float32, "english", nil, nil, nil))
+	for _, id := range []string{"a", "b"} {
+		c19Must(en.VAdd(c19IdxDeleted, id, []float32{0.3, 0.1, 0.2, 0.9}, map[string]any{"tag": "x", "n": 1.0, "content": "alpha " + id}))
+	}
+	for _, id := range []string{"a", "b"} {
+		c19Must(en.VDelete(c19IdxDeleted, id))
+	}
+	c19Must(en.VCreate(c19IdxHalf, distance.Euclidean, 8, 50, distance.Float16, "", nil, nil, nil))
+	for i, id := range []string{"a", "b", "c"} {
+		c19Must(en.VAdd(c19IdxHalf, id, []float32{0.5, float32(i) * 0.25, 0.125, 1}, map[string]any{"tag": "x", "n": float64(i)}))
+	}
 	c19Must(en.VLink(c19Idx0, "a", "b", "rel", "inv", 1, map[string]any{"p": "q"}))
 	c19Must(en.VLink(c19Idx0, "a", "c", "rel", "", 0.5, nil))
 	c19Must(en.VLink(c19Idx0, "b", "c", "next", "", 1, nil))
@@ -178,12 +192,12 @@ func (e *c19Env) seed() {
 	c19Must(en.KVSet("k1", []byte("v1")))
 	ids := []string{"a", "b", "c", "d", "r0", "new1", "nb0", "nb1", "nbx", "nby", "nbz", "nonexistent_zz"}
 	e.uni = vexec.Universe{
-		Indexes: []string{c19Idx0, c19Idx1, "inew", "nonexistent_zz"},
+		Indexes: []string{c19Idx0, c19Idx1, c19IdxEmpty, c19IdxDeleted, c19IdxHalf, "inew", "nonexistent_zz"},
 		IDs:     ids,
 		Keys:    []string{"k0", "k1", "nonexistent_zz"},
 		Rels:    []string{"rel", "inv", "next", "invalidates"},
 	}
-	for _, ix := range []string{c19Idx0, c19Idx1} {
+	for _, ix := range []string{c19Idx0, c19Idx1, c19IdxEmpty, c19IdxDeleted, c19IdxHalf} {
 		for _, id := range ids {
 			e.uni.Nodes = append(e.uni.Nodes, vexec.GraphID(ix, id))
 		}
